@@ -2105,8 +2105,8 @@ int64 Atoll(const char * str)
       negative = (negative == false);
       s++;
    }
-   const int64 ret = (int64) Atoull(s);
-   return negative ? -ret : ret;
+   const uint64 ret = Atoull(s);
+   return (int64) (negative ? (0-ret) : ret);  // negate as unsigned, since negating the int64 would be undefined behavior for "-9223372036854775808"
 }
 
 #ifdef MUSCLE_SINGLE_THREAD_ONLY
